@@ -339,6 +339,7 @@ def run_immutability(ctx, case):
     inst = case["instance"]
     I = gen.build(inst)
     I.metadata["k"] = [1, 2]
+    check_views(ctx, inst, I, "views before consumer")   # also populates every cached view
     before = content(I)
     who = case["consumer"]
     from job_shop_lib.dispatching.rules import DispatchingRuleSolver
@@ -410,6 +411,11 @@ def run_immutability(ctx, case):
     after = content(I)
     if after != before:
         ctx.violation("c14_instance_modified", {"by": name})
+    # the cached derived views (arrays included) belong to the instance too
+    nviol = len(ctx.violations) + sum(ctx.known_hits.values())
+    check_views(ctx, inst, I, "views after consumer: " + name)
+    if len(ctx.violations) + sum(ctx.known_hits.values()) != nviol:
+        ctx.count("views_modified_by_consumer")
     ctx.note_case(case, True, fingerprint=str(hash((gen.fingerprint(inst), who))))
 
 
